@@ -39,6 +39,14 @@ def main(tier, seed):
     scenarios.append({"partials": [("card", [("text", "plain")]), ("card.liquid", scen.BROKEN)],
                       "templates": [[("render", S("card.liquid"), None, [])], [("render", S("card"), None, [])], [("include", S("card"), [])]], "datas": [[]]})
     reqs = []
+    # partial sources of particular shapes: blank, whitespace only, ending / starting with a line break, only a comment, only raw text - each reached by include, render and a dynamic name
+    V = tpl.var
+    shapes = [("blank", [("text", "")]), ("ws", [("text", " \n")]), ("nl_end", [("text", "- "), ("out", (V("k"), [])), ("text", "\n")]), ("nl_start", [("text", "\n\tx")]), ("crlf_end", [("text", "x\r\n")]),
+              ("cmt", [("comment", "nothing")]), ("rawonly", [("raw", "{{ k }}\n")]), ("two_nl", [("text", "y\n\n")])]
+    tps = []
+    for nme, _ in shapes:
+        tps.append([("text", "<"), ("include", S(nme), [("k", S("K"))]), ("text", "|"), ("render", S(nme), None, [("k", S("R"))]), ("text", "|"), ("include", V("dyn"), [("k", S("D"))]), ("text", ">")])
+    scenarios.append({"partials": shapes, "templates": tps, "datas": [[["dyn", ["s", n]]] for n, _ in shapes[:3]]})
     for si, sc in enumerate(scenarios):
         pairs = [(t, d) for t in range(len(sc["templates"])) for d in range(len(sc["datas"]))]
         calls = []
